@@ -1,6 +1,6 @@
 //! Counting global allocator: largest single request and peak live bytes since the last reset.
 use std::alloc::{GlobalAlloc, Layout, System};
-use std::sync::atomic::{AtomicUsize, Ordering::Relaxed};
+use std::sync::atomic::{AtomicU8, AtomicUsize, Ordering::Relaxed};
 
 pub struct Counting;
 
@@ -8,6 +8,14 @@ static MAX_REQ: AtomicUsize = AtomicUsize::new(0);
 static LIVE: AtomicUsize = AtomicUsize::new(0);
 static PEAK: AtomicUsize = AtomicUsize::new(0);
 static BASE: AtomicUsize = AtomicUsize::new(0);
+/// non-zero: fresh memory (new blocks, the grown part of a reallocation) is filled with this byte, so that a
+/// result which depends on uninitialised memory differs between two runs with different fillings
+static POISON: AtomicU8 = AtomicU8::new(0);
+const POISON_MAX: usize = 8 << 20;
+
+pub fn set_poison(b: u8) {
+    POISON.store(b, Relaxed);
+}
 
 fn note(size: usize) {
     if size > MAX_REQ.load(Relaxed) {
@@ -22,7 +30,12 @@ fn note(size: usize) {
 unsafe impl GlobalAlloc for Counting {
     unsafe fn alloc(&self, layout: Layout) -> *mut u8 {
         note(layout.size());
-        System.alloc(layout)
+        let p = System.alloc(layout);
+        let fill = POISON.load(Relaxed);
+        if fill != 0 && !p.is_null() && layout.size() <= POISON_MAX {
+            std::ptr::write_bytes(p, fill, layout.size());
+        }
+        p
     }
     unsafe fn dealloc(&self, ptr: *mut u8, layout: Layout) {
         LIVE.fetch_sub(layout.size(), Relaxed);
@@ -41,7 +54,12 @@ unsafe impl GlobalAlloc for Counting {
         } else {
             LIVE.fetch_sub(layout.size() - new_size, Relaxed);
         }
-        System.realloc(ptr, layout, new_size)
+        let p = System.realloc(ptr, layout, new_size);
+        let fill = POISON.load(Relaxed);
+        if fill != 0 && !p.is_null() && new_size > layout.size() && new_size - layout.size() <= POISON_MAX {
+            std::ptr::write_bytes(p.add(layout.size()), fill, new_size - layout.size());
+        }
+        p
     }
 }
 
